@@ -127,6 +127,13 @@ def sub_hist(case):
                 _, ii, js = ev
                 t.sign(keys=[_libkey(spec['inputs'][ii]['keys'][j], comp[ii]) for j in js], index_n=ii)
                 model[ii].update(js)
+            elif kind == 'signall':     # ('signall', j): one call without index_n, key j of every input
+                _, j = ev
+                ks = [_libkey(spec['inputs'][ii]['keys'][j], comp[ii]) for ii in range(n_in) if j < nk[ii]]
+                t.sign(keys=ks, fail_on_unknown_key=False)
+                for ii in range(n_in):
+                    if j < nk[ii]:
+                        model[ii].add(j)
             elif kind == 'resign':      # sign again with replace_signatures
                 _, ii, j = ev
                 t.sign(keys=[_libkey(spec['inputs'][ii]['keys'][j], comp[ii])], index_n=ii, replace_signatures=True)
@@ -182,6 +189,10 @@ def sub_hist(case):
                 en.append(['resign', ii, j])
             if not any(e[0] == 'foreign' for e in hist):
                 en.append(['foreign', ii])
+    if n_in >= 2:
+        for j in range(max(nk)):
+            if any(j < nk[ii] and j not in model[ii] for ii in range(n_in)):
+                en.append(['signall', j])
     if expect and not parsed:
         en.append(['reparse'])
     return {'devs': devs, 'ret': {'state': state, 'enabled': en}, 'out': out}
